@@ -110,6 +110,33 @@ def validate_samples(samples):
     return n, bad
 
 
+def cvc5_recheck(queries):
+    """each query is an SMT-LIB2 script z3 answered unsat; cvc5 must agree. one incremental process, push/pop per query"""
+    if not queries: return {'queries': 0}
+    import subprocess, tempfile, re
+    body = ['(set-logic ALL)']
+    for q in queries:
+        q = re.sub(r'\(set-info[^\n]*\n', '', q); q = q.replace('(check-sat)', '')
+        q = re.sub(r'\(set-logic[^)]*\)', '', q)
+        body.append('(push 1)'); body.append(q); body.append('(check-sat)'); body.append('(pop 1)')
+    t0 = time.time()
+    with tempfile.NamedTemporaryFile('w', suffix='.smt2', delete=False, dir=build.SCRATCH_ROOT) as f:
+        f.write('\n'.join(body)); path = f.name
+    try:
+        p = subprocess.run(['cvc5', '--incremental', '--lang', 'smt2', path], stdout=subprocess.PIPE, stderr=subprocess.PIPE, timeout=900)
+        out = p.stdout.decode().split()
+        errs = p.stderr.decode()
+    except Exception as e:
+        out = []; errs = repr(e)
+    finally:
+        os.unlink(path)
+    res = {'queries': len(queries), 'unsat': sum(1 for x in out if x == 'unsat'), 'wall_s': round(time.time() - t0, 1)}
+    bad = len(queries) - res['unsat']
+    if bad or '(error' in errs or 'rror' in errs[:200]:
+        res['disagree'] = max(bad, 1); res['first'] = (errs or ' '.join(out))[:300]
+    return res
+
+
 def run_property(pid, tier, seed, module_name=None, post=None):
     t0 = time.time()
     mod = importlib.import_module(module_name or f'mirse.props.{pid.lower()}')
@@ -129,6 +156,8 @@ def run_property(pid, tier, seed, module_name=None, post=None):
             if job.mandatory: inconclusive.append(f'mandatory job {job.name} not run: time cap')
             continue
         budget = min(job.budget_s, remaining)
+        job.params.setdefault('xsmt_every', 211 if tier == 'quick' else 53)
+        if tier == 'thorough' and job.params.get('xcheck_every'): job.params['xcheck_every'] = min(job.params['xcheck_every'], 10)
         tj = time.time()
         try:
             if id(job) in precomputed:
@@ -208,6 +237,9 @@ def run_property(pid, tier, seed, module_name=None, post=None):
     nval, badval = validate_samples(total.extra.get('validate', []))
     if badval:
         inconclusive.append(f"engine prediction differs from the native run on {len(badval)} sampled path(s), e.g. {json.dumps(badval[0], default=str)[:500]}")
+    # ---- second solver: sampled verdict queries re-decided by cvc5 (thorough tier)
+    cvc = cvc5_recheck(total.extra.get('smt2', []))
+    if cvc.get('disagree'): inconclusive.append(f"cvc5 disagrees with z3 on {cvc['disagree']} verdict queries (or reported an error): {cvc.get('first', '')[:200]}")
     # ---- vacuity: required witnesses
     missing = [w for w in getattr(mod, 'REQUIRED_WITNESSES', []) if w not in total.witnesses]
     if missing and not total.incomplete:
@@ -229,6 +261,7 @@ def run_property(pid, tier, seed, module_name=None, post=None):
             'exhaustive': False,
             'models_trusted': len(models.MODEL_NAMES),
             'solver': 'z3 ' + __import__('z3').get_version_string(),
+            'second_solver_cvc5': cvc,
         },
         'assumptions': getattr(mod, 'ASSUMPTIONS', []) + [
             'core/intrinsic models in mirse/models.py are faithful (%d patterns)' % len(models.MODEL_NAMES),
